@@ -129,6 +129,9 @@ STD_USERCOPY_PREFIX = (
 )
 
 
+STD_ALGORITHMS_WITH_CALLABLE = ('std::for_each', 'std::find_if', 'std::find_if_not', 'std::any_of', 'std::all_of', 'std::none_of', 'std::count_if')
+
+
 def _starts(k, prefixes):
     return any(k.startswith(p) for p in prefixes)
 
@@ -270,5 +273,16 @@ class Summaries:
                         out |= self.effects(g)
         else:
             out |= (eff - {NOFAULT})
-        # a lambda passed as argument runs inside the callee: handled because the callee body calls it directly
+        # a lambda passed as argument runs inside the callee: handled because the callee body calls it directly. A standard algorithm
+        # has no body here: it runs its callable argument in place, so the call has the effects of that callable's body
+        cal = fn.callee(n)
+        if cal and cal.get('sys') and short(cal.get('key', '')) in STD_ALGORITHMS_WITH_CALLABLE:
+            for a in fn.call_args(n):
+                t = fn.ntype(a)
+                if not t or not (t.get('rec') or (self.tu.type(t.get('base')) or {}).get('rec')):
+                    continue
+                g = fn.functor_body(a)
+                if g is not None:
+                    out.discard(UNKNOWN)
+                    out |= self.effects(g)
         return out
